@@ -157,12 +157,14 @@ Fixpoint ndigits_fuel (fuel : nat) (m : Z) : Z :=
   | S f => if m <=? 0 then 0 else 1 + ndigits_fuel f (m / 10)
   end.
 
-(* value m * 10^e10, m >= 0 *)
-Definition round_decimal (neg : bool) (m e10 : Z) (nd : Z) : option Z :=
+(* value m * 10^e10, m >= 0.  The two magnitude shortcuts are exact (no approximation):
+   m >= 1 and e10 > 400 give a value >= 10^401 > max double (ErrRange);
+   m < 2^(log2 m + 1) <= 10^(log2 m + 1), so e10 + log2 m + 1 < -400 gives a value < 10^-400, which rounds to zero. *)
+Definition round_decimal (neg : bool) (m e10 : Z) : option Z :=
   let signbit := if neg then two63 else 0 in
   if m =? 0 then Some signbit
-  else if 400 <? e10 + nd then None                   (* far beyond 1.8e308: ErrRange *)
-  else if e10 + nd <? -400 then Some signbit         (* far below 4.9e-324: rounds to zero, no error *)
+  else if 400 <? e10 then None
+  else if e10 + (Z.log2 m + 1) <? -400 then Some signbit
   else
     let r := if 0 <=? e10 then round_pos_rational (m * 10 ^ e10) 1
              else round_pos_rational m (10 ^ (- e10)) in
@@ -195,7 +197,7 @@ Fixpoint read_mant (s : bytes) (m : Z) (after : Z) (sawdot sawdig : bool) (nd : 
 Fixpoint read_digits (s : bytes) (acc : Z) : option Z :=
   match s with
   | [] => Some acc
-  | c :: t => if is_digit c then read_digits t (if acc <? 100000 then acc * 10 + (Z.of_N (code c) - 48) else acc) else None
+  | c :: t => if is_digit c then read_digits t (if acc <? 10000 then acc * 10 + (Z.of_N (code c) - 48) else acc) else None
   end.
 
 (* Some (Some bits) = parsed; Some None = syntactically fine but out of range; None = syntax error *)
@@ -209,7 +211,7 @@ Definition parse_float (s : bytes) : option (option Z) :=
   if negb sawdig then None
   else
     match rest with
-    | [] => Some (round_decimal neg m (- after) nd)
+    | [] => Some (round_decimal neg m (- after))
     | c :: t =>
         if eqc c "e" || eqc c "E" then
           let '(eneg, t') :=
@@ -220,7 +222,7 @@ Definition parse_float (s : bytes) : option (option Z) :=
           match t' with
           | [] => None
           | _ => match read_digits t' 0 with
-                 | Some e => Some (round_decimal neg m ((if eneg then - e else e) - after) nd)
+                 | Some e => Some (round_decimal neg m ((if eneg then - e else e) - after))
                  | None => None
                  end
           end
